@@ -35,6 +35,7 @@ import (
 	"github.com/metrico/qryn/writer/utils/logger"
 	"github.com/metrico/qryn/writer/utils/numbercache"
 	"github.com/metrico/qryn/writer/utils/promise"
+	"github.com/metrico/qryn/writer/utils/unmarshal"
 
 	"verif/mc/ev"
 	"verif/mc/sched"
@@ -153,12 +154,14 @@ func idOf(v reflect.Value) (int, bool, error) {
 		return int(v.Float()), true, nil
 	case reflect.String:
 		s := v.String()
+		// "id<n>;" optionally followed by padding dots (long lines of the real-parser scenarios)
+		s = strings.TrimRight(s, ".")
 		if !strings.HasPrefix(s, "id") || !strings.HasSuffix(s, ";") {
-			return 0, false, fmt.Errorf("string field %q is not one submitted value", s)
+			return 0, false, fmt.Errorf("string field %.40q is not one submitted value", s)
 		}
 		n, err := strconv.Atoi(s[2 : len(s)-1])
 		if err != nil {
-			return 0, false, fmt.Errorf("string field %q is not one submitted value", s)
+			return 0, false, fmt.Errorf("string field %.40q is not one submitted value", s)
 		}
 		return n, true, nil
 	case reflect.Slice:
@@ -233,6 +236,7 @@ type Attempt struct {
 	Seq     int // order among attempts and blocks
 	Table   string
 	IDs     []int
+	Req     any // the request object (a retry re-submits the same object)
 	Promise *promise.Promise[uint32]
 }
 
@@ -253,6 +257,9 @@ type World struct {
 	Status   []*ReqStatus
 	Connects int
 	idsOf    map[any][]int
+	// real-parser scenarios: rows come out of the real decoder, only these columns carry the row identity
+	// (nil = every column does) and the ids of a request are read off the request object when it is submitted
+	idCols map[string]bool
 }
 
 // injectedErr is what the fake database answers when the explorer decides an INSERT (or connect) fails.  Its TEXT is
@@ -364,7 +371,7 @@ func (c *fakeClient) Do(ctx context.Context, q ch.Query) error {
 	sched.Op(sched.OpYield) // the request is on the wire: everything else may run
 	w.seq++
 	b := &Block{Seq: w.seq, Query: q.Body}
-	decodeBlock(b, q.Input)
+	decodeBlock(b, q.Input, w.idCols)
 	w.Blocks = append(w.Blocks, b)
 	// the database decides the outcome
 	switch sched.Choose("insert", 3, true) {
@@ -384,7 +391,7 @@ func (c *fakeClient) Do(ctx context.Context, q ch.Query) error {
 	return b.Err
 }
 
-func decodeBlock(b *Block, in proto.Input) {
+func decodeBlock(b *Block, in proto.Input, idCols map[string]bool) {
 	rows := -1
 	type col struct {
 		name string
@@ -414,6 +421,9 @@ func decodeBlock(b *Block, in proto.Input) {
 	for i := 0; i < rows; i++ {
 		rowID := -2
 		for _, c := range cols {
+			if idCols != nil && !idCols[c.name] {
+				continue
+			}
 			m := c.v.MethodByName("Row")
 			if !m.IsValid() {
 				b.Problems = append(b.Problems, "column type without Row(): "+c.v.Type().String())
@@ -449,9 +459,18 @@ type proxy struct {
 }
 
 func (p *proxy) Request(req helpers.SizeGetter, mode int) *promise.Promise[uint32] {
+	ids := p.w.idsOf[req]
+	if p.w.idCols != nil {
+		if spl, ok := req.(*model.TimeSamplesData); ok {
+			// what the decoder put into this chunk, as it is at the moment of submission
+			for _, ts := range spl.MTimestampNS {
+				ids = append(ids, int(ts))
+			}
+		}
+	}
 	pr := p.IInsertServiceV2.Request(req, mode)
 	p.w.seq++
-	p.w.Attempts = append(p.w.Attempts, &Attempt{Seq: p.w.seq, Table: p.table, IDs: p.w.idsOf[req], Promise: pr})
+	p.w.Attempts = append(p.w.Attempts, &Attempt{Seq: p.w.seq, Table: p.table, IDs: ids, Req: req, Promise: pr})
 	return pr
 }
 
@@ -500,6 +519,38 @@ func initGlobals() {
 	controllerv1.FPCache = stubCache{}
 }
 
+
+// buildHandler is the real handler chain: Build -> PusherCtx.Do -> parser entry (doParse) -> post-request status
+// writer, errors through the real ErrorHandler.  The two options are withSimpleParser("*", parser) and
+// withOkStatusAndBody(204, nil) written with the exported API, so that only doParse needs an overlay export.
+func buildHandler(parser controllerv1.Parser) func(http.ResponseWriter, *http.Request) {
+	return controllerv1.Build(
+		func(ctx *controllerv1.PusherCtx) *controllerv1.PusherCtx {
+			ctx.Parser["*"] = func(_ http.ResponseWriter, r *http.Request) error { return controllerv1.VerifDoParse(r, parser) }
+			return ctx
+		},
+		func(ctx *controllerv1.PusherCtx) *controllerv1.PusherCtx {
+			ctx.PostRequest = append(ctx.PostRequest, func(w http.ResponseWriter, _ *http.Request) error {
+				w.WriteHeader(http.StatusNoContent)
+				return nil
+			})
+			return ctx
+		})
+}
+
+// serve is one request thread: what the client gets is the acknowledgement.
+func serve(w *World, st *ReqStatus, handler func(http.ResponseWriter, *http.Request), req *http.Request) {
+	rec := httptest.NewRecorder()
+	handler(rec, req)
+	w.seq++
+	if st.Answers == 0 {
+		st.AnswerSeq = w.seq
+	}
+	st.Answers++
+	st.Code = rec.Code // 200 when nothing was written, exactly what net/http would send
+	st.OK = rec.Code >= 200 && rec.Code < 300
+}
+
 // Scenario implements sched.Scenario.
 type Scenario struct{ C Cfg }
 
@@ -531,7 +582,7 @@ func (s *Scenario) Run() any {
 	var svcA, svcB service.IInsertServiceV2 // A: index-like table flushed before B's insert
 	var keyA, keyB, tabA, tabB string
 	switch c.Kind {
-	case "loki":
+	case "loki", "lokireal":
 		svcA = impl.NewTimeSeriesInsertService(opts(nil))
 		svcB = impl.NewSamplesInsertService(opts(func() { svcA.PlanFlush() }))
 		keyA, keyB, tabA, tabB = "tsService", "splService", "time_series", "samples"
@@ -561,9 +612,46 @@ func (s *Scenario) Run() any {
 	pb := &proxy{svcB, w, tabB}
 
 	nextID := 1
+	if c.Kind == "lokireal" {
+		w.idCols = map[string]bool{"timestamp_ns": true, "string": true}
+	}
 	for r := 0; r < c.Reqs; r++ {
 		st := &ReqStatus{}
 		w.Status = append(w.Status, st)
+		if c.Kind == "lokireal" {
+			// the REAL Loki JSON decoder and parser goroutine (instrumented writer/utils/unmarshal/builder.go) over a body
+			// whose first c.Chunks-1 streams each exceed the parser's 1 MiB portion limit, so that the request reaches the
+			// handler core in c.Chunks portions; a row is identified by its timestamp (= id) and its line "id<n>;...."
+			var body strings.Builder
+			body.WriteString(`{"streams":[`)
+			for k := 0; k < c.Chunks; k++ {
+				if k > 0 {
+					body.WriteString(",")
+				}
+				fmt.Fprintf(&body, `{"stream":{"a":"%d","r":"%d"},"values":[`, k, r)
+				pad := 8
+				if k < c.Chunks-1 {
+					pad = (1<<20)/c.Rows + 64
+				}
+				for i := 0; i < c.Rows; i++ {
+					if i > 0 {
+						body.WriteString(",")
+					}
+					fmt.Fprintf(&body, `["%d","%s%s"]`, nextID, idStr(nextID), strings.Repeat(".", pad))
+					st.IDs = append(st.IDs, nextID)
+					nextID++
+				}
+				body.WriteString("]}")
+			}
+			body.WriteString("]}")
+			ctx := context.WithValue(context.Background(), "node", "n1")
+			ctx = context.WithValue(ctx, keyA, service.IInsertServiceV2(pa))
+			ctx = context.WithValue(ctx, keyB, service.IInsertServiceV2(pb))
+			req, _ := http.NewRequestWithContext(ctx, "POST", "/loki/api/v1/push", strings.NewReader(body.String()))
+			handler := buildHandler(controllerv1.Parser(unmarshal.DecodePushRequestStringV2))
+			sched.GoNamed(fmt.Sprintf("req%d", r), false, func() { serve(w, st, handler, req) })
+			continue
+		}
 		var chunks []*model.ParserResponse
 		for k := 0; k < c.Chunks; k++ {
 			var idsA, idsB []int
@@ -620,32 +708,8 @@ func (s *Scenario) Run() any {
 		}
 		ctx = context.WithValue(ctx, keyB, service.IInsertServiceV2(pb))
 		req, _ := http.NewRequestWithContext(ctx, "POST", "/push", nil)
-		// the request goes through the real handler chain: Build -> PusherCtx.Do -> parser entry (doParse) -> post-request
-		// status writer, errors through the real ErrorHandler; the two options below are withSimpleParser("*", parser) and
-		// withOkStatusAndBody(204, nil) written with the exported API, so that only doParse needs an overlay export
-		handler := controllerv1.Build(
-			func(ctx *controllerv1.PusherCtx) *controllerv1.PusherCtx {
-				ctx.Parser["*"] = func(_ http.ResponseWriter, r *http.Request) error { return controllerv1.VerifDoParse(r, parser) }
-				return ctx
-			},
-			func(ctx *controllerv1.PusherCtx) *controllerv1.PusherCtx {
-				ctx.PostRequest = append(ctx.PostRequest, func(w http.ResponseWriter, _ *http.Request) error {
-					w.WriteHeader(http.StatusNoContent)
-					return nil
-				})
-				return ctx
-			})
-		sched.GoNamed(fmt.Sprintf("req%d", r), false, func() {
-			rec := httptest.NewRecorder()
-			handler(rec, req)
-			w.seq++
-			if st.Answers == 0 {
-				st.AnswerSeq = w.seq
-			}
-			st.Answers++
-			st.Code = rec.Code // 200 when nothing was written, exactly what net/http would send
-			st.OK = rec.Code >= 200 && rec.Code < 300
-		})
+		handler := buildHandler(parser)
+		sched.GoNamed(fmt.Sprintf("req%d", r), false, func() { serve(w, st, handler, req) })
 	}
 	if c.Flusher {
 		sched.GoNamed("flusher", false, func() {
@@ -741,6 +805,18 @@ func (s *Scenario) Check(obs any, res *sched.Result) (string, []sched.Finding) {
 	for id := range okBlocks {
 		if !known[id] {
 			add("C02", "phantom_row", fmt.Sprintf("a block contains row id %d that nobody submitted", id))
+		}
+	}
+	// a pushed row reaches the insert services in exactly one request object (a retry re-submits the same object): the
+	// decoder's portions must not share rows
+	owner := map[string]any{}
+	for _, a := range w.Attempts {
+		for _, id := range a.IDs {
+			k := fmt.Sprintf("%s/%d", a.Table, id)
+			if o, ok := owner[k]; ok && o != a.Req {
+				add("C02", "row_in_two_portions_of_a_request", fmt.Sprintf("row %d of table %s was submitted in two different portions (request objects) of the push", id, a.Table))
+			}
+			owner[k] = a.Req
 		}
 	}
 	// every attempt's rows travel together in one block and the attempt's promise reports that block's outcome
